@@ -63,6 +63,25 @@ Theorem C10_sections_only : forall fuel buf idx im sm r,
   exists secs, secs_ok secs /\ drop idx buf = enc_secs secs /\ r = ointerp_from (im, sm) secs.
 Proof. exact kv_bwd. Qed.
 
+(* the executable reference the correspondence run judges the implementation with
+   (Spec/FrameLayout.v: parse_secs, spec_decode) decides exactly the declarative grammar and
+   [accepts], and the model of Decode is the same function as the reference decoder on every
+   byte string: result, bytes consumed, and failure *)
+Theorem C10_parse_secs_iff : forall b secs,
+  wf b -> (parse_secs b = Some secs <-> secs_ok secs /\ b = enc_secs secs).
+Proof. exact parse_secs_iff. Qed.
+
+Theorem C10_spec_decode_accepts : forall b, wf b -> ((exists s, spec_decode b = Some s) <-> accepts b).
+Proof. exact spec_decode_accepts. Qed.
+
+Theorem C10_decode_refines_spec : forall b,
+  wf b ->
+  match spec_decode b with
+  | Some s => decode b = (L_meta + declared b, Ok (of_spec s))
+  | None => exists e, snd (decode b) = Err e
+  end.
+Proof. exact decode_refines_spec. Qed.
+
 (* DecodeFromBytes (also the entry point C03 exercises): total, and a successful result never
    reports a header longer than the input *)
 Theorem C10_decode_from_bytes_total : forall b,
